@@ -20,6 +20,7 @@
 package hyper
 
 import (
+	"fmt"
 	"sync"
 
 	"github.com/bbva/qed/balloon/cache"
@@ -143,6 +144,12 @@ func (t *HyperTree) AddBulk(eventDigests []hashing.Digest, initialVersion uint64
 func (t *HyperTree) QueryMembership(eventDigest hashing.Digest) (proof *QueryProof, err error) {
 	t.Lock()
 	defer t.Unlock()
+
+	// the tree and its batch cache are laid out for digests of the hasher's
+	// length; anything else (it comes straight from a request) is refused
+	if len(eventDigest)*8 != int(t.hasher.Len()) {
+		return nil, fmt.Errorf("invalid digest length: %d bytes", len(eventDigest))
+	}
 
 	//t.log.Tracef("Proving membership for index %d", eventDigest)
 
